@@ -47,6 +47,9 @@ pub enum OutputKind {
     OddName,
     /// the output path is the input file itself
     SameAsInput,
+    /// an existing file that already holds the expected payload up to trailing whitespace
+    /// (what redirecting an earlier stdout-mode run, or an editor trimming the end, leaves behind)
+    ExistingNearCopy,
 }
 
 #[derive(Clone, Debug, Serialize, Deserialize)]
@@ -62,6 +65,9 @@ pub struct CliCase {
     pub strace: bool,
     /// where the options go relative to the positionals: 0 before, 1 after, 2 between
     pub arg_order: u8,
+    /// the input path is /dev/stdin and the bytes arrive through a pipe (a non-regular file)
+    #[serde(default)]
+    pub via_stdin: bool,
 }
 
 impl CliCase {
@@ -192,8 +198,10 @@ pub fn gen_cli_case(seed: u64, index: u64, strace: bool) -> CliCase {
         10 => OutputKind::Symlink,
         11 => OutputKind::Relative,
         12 => OutputKind::OddName,
+        13 if r.chance(1, 2) => OutputKind::ExistingNearCopy,
         _ => OutputKind::SameAsInput,
     };
+    let via_stdin = matches!(input_kind, InputKind::Valid | InputKind::Malformed | InputKind::NotUtf8 | InputKind::Empty) && output != OutputKind::SameAsInput && r.chance(1, 8);
     CliCase {
         origin: format!("cli:{}:{}", seed, index),
         input_kind,
@@ -202,8 +210,9 @@ pub fn gen_cli_case(seed: u64, index: u64, strace: bool) -> CliCase {
         derive,
         sort,
         output,
-        strace,
+        strace: strace && !via_stdin,
         arg_order: r.below(3) as u8,
+        via_stdin,
     }
 }
 
@@ -274,8 +283,9 @@ pub fn check_cli(bin: &Path, work: &Path, case: &CliCase, serial: u64, rep: &mut
         return;
     }
     let input = bytes::unhex(&case.input_hex);
-    let in_path = dir.join("input.xml");
+    let in_path = if case.via_stdin { PathBuf::from("/dev/stdin") } else { dir.join("input.xml") };
     match case.input_kind {
+        _ if case.via_stdin => {}
         InputKind::Missing => {}
         InputKind::Directory => {
             let _ = std::fs::create_dir(&in_path);
@@ -284,6 +294,10 @@ pub fn check_cli(bin: &Path, work: &Path, case: &CliCase, serial: u64, rep: &mut
             let _ = std::fs::write(&in_path, &input);
         }
     }
+    let expected_early = match case.input_kind {
+        InputKind::Valid | InputKind::Malformed | InputKind::Empty => expected_payload(case, &input),
+        _ => None,
+    };
     let out_path: Option<PathBuf> = match case.output {
         OutputKind::Stdout => None,
         OutputKind::NewFile => Some(dir.join("out.rs")),
@@ -314,6 +328,20 @@ pub fn check_cli(bin: &Path, work: &Path, case: &CliCase, serial: u64, rep: &mut
         OutputKind::Relative => Some(PathBuf::from("rel-out.rs")),
         OutputKind::OddName => Some(dir.join("out put ü — 日本.rs")),
         OutputKind::SameAsInput => Some(in_path.clone()),
+        OutputKind::ExistingNearCopy => {
+            let p = dir.join("out.rs");
+            let near = match &expected_early {
+                Some(payload) => match fnv64(payload.as_bytes()) % 4 {
+                    0 => format!("{}\n", payload),
+                    1 => payload.trim_end().to_string(),
+                    2 => format!("{}  \n\n", payload.trim_end()),
+                    _ => payload.clone(),
+                },
+                None => SENTINEL.repeat(3),
+            };
+            let _ = std::fs::write(&p, near);
+            Some(p)
+        }
     };
     // where the output really lands (for snapshots): relative paths resolve against the run directory
     let out_abs: Option<PathBuf> = out_path.as_ref().map(|p| if p.is_absolute() { p.clone() } else { dir.join(p) });
@@ -345,9 +373,32 @@ pub fn check_cli(bin: &Path, work: &Path, case: &CliCase, serial: u64, rep: &mut
     } else {
         Command::new(bin)
     };
-    cmd.args(&args).current_dir(&dir).env_remove("RUST_LOG").stdin(Stdio::null()).stdout(Stdio::piped()).stderr(Stdio::piped());
-    let out = match cmd.output() {
-        Ok(o) => o,
+    cmd.args(&args)
+        .current_dir(&dir)
+        .env_remove("RUST_LOG")
+        .stdin(if case.via_stdin { Stdio::piped() } else { Stdio::null() })
+        .stdout(Stdio::piped())
+        .stderr(Stdio::piped());
+    let out = match cmd.spawn() {
+        Ok(mut child) => {
+            if case.via_stdin {
+                if let Some(mut si) = child.stdin.take() {
+                    use std::io::Write;
+                    let data = input.clone();
+                    // write on a thread: large inputs and large outputs must not dead-lock the pipes
+                    std::thread::spawn(move || {
+                        let _ = si.write_all(&data);
+                    });
+                }
+            }
+            match child.wait_with_output() {
+                Ok(o) => o,
+                Err(e) => {
+                    rep.inconclusive(&format!("cannot wait for the binary: {}", e));
+                    return;
+                }
+            }
+        }
         Err(e) => {
             rep.inconclusive(&format!("cannot run the binary: {}", e));
             return;
@@ -365,10 +416,13 @@ pub fn check_cli(bin: &Path, work: &Path, case: &CliCase, serial: u64, rep: &mut
     let input_at_fault = expected.is_none();
     let output_creatable = matches!(
         case.output,
-        OutputKind::Stdout | OutputKind::NewFile | OutputKind::ExistingFile | OutputKind::Symlink | OutputKind::Relative | OutputKind::OddName | OutputKind::SameAsInput
+        OutputKind::Stdout | OutputKind::NewFile | OutputKind::ExistingFile | OutputKind::Symlink | OutputKind::Relative | OutputKind::OddName | OutputKind::SameAsInput | OutputKind::ExistingNearCopy
     ) && !(case.output == OutputKind::SameAsInput && matches!(case.input_kind, InputKind::Missing | InputKind::Directory));
     rep.count(&format!("input {:?}", case.input_kind));
     rep.count(&format!("output {:?}", case.output));
+    if case.via_stdin {
+        rep.count("input through a pipe (/dev/stdin)");
+    }
     rep.count(if input_at_fault { "expected failure: input" } else if output_creatable { "expected success" } else { "expected failure: output" });
     rep.nontrivial.insert(fnv64(format!("{:?}{:?}{:?}{:?}{:?}{}", case.input_kind, case.parser, case.derive, case.sort, case.output, case.input_hex).as_bytes()));
 
